@@ -117,7 +117,7 @@ UM_ASSUME = [
 ]
 
 
-def _um(prop, what="", runs_quick=4000):
+def _um(prop, what="", runs_quick=5000):
 	from engines.um import ENGINE
 	return ENGINE, dict(
 		level="exploration", runs_quick=runs_quick, budget_quick_s=55,
@@ -137,7 +137,7 @@ def _c14():
 	real["real"] = real["real"] + ["data_dump.DATADumpFile readers on damaged capture files", "data_if.DATAInterface.recv_rx_msg (MS-side receiver)",
 		"TxMsg/RxMsg.parse_msg fed directly"]
 	return ENGINE, dict(
-		level="exploration", runs_quick=4000, budget_quick_s=55,
+		level="exploration", runs_quick=5000, budget_quick_s=55,
 		rule="one run = either (a) a valid fake_trx session (as in C05/C10) with hostile datagrams injected at seeded points into control "
 			"and data sockets (non-UTF-8, non-numeric, missing/huge arguments, HSN out of range, embedded NULs, over-long lines, random "
 			"octets, truncated / bit-flipped / wrong-version TRXD, foreign senders) and octets fed straight into TxMsg/RxMsg.parse_msg and "
@@ -153,7 +153,7 @@ def _c14():
 REGISTRY = {
 	"C14": _c14,
 	"C02": lambda: _um("C02", "Profile C02: tuning/hopping heavy plans over a small frequency pool, bursts from every transceiver."),
-	"C03": lambda: _um("C03", runs_quick=5000, what="Profile C03 (45 % of runs): burst arrivals at any advance (-5..+25, far future, beyond the hyperframe), duplicates, power cycles, SETFORMAT changes. Race profile (55 % of runs, fine schedules): one arrival / POWEROFF / POWERON / SETFORMAT / SETFH / tuning datagram released at exactly the instant of a clock tick, both threads interleaved at source-line granularity (change-point sweep over the source lines of the race window, PCT with 2-3 change points, random walk), judged by a burst-centric linearisation-tolerant oracle with passive sniffer transceivers."),
+	"C03": lambda: _um("C03", runs_quick=6000, what="Profile C03 (35 % of runs): burst arrivals at any advance (-5..+25, far future, beyond the hyperframe), duplicates, power cycles, SETFORMAT changes. Race profile (50 % of runs, fine schedules; a further 15 % run the recipient-side race2 profile, DESIGN.md 9.7): one arrival / POWEROFF / POWERON / SETFORMAT / SETFH / tuning datagram released at exactly the instant of a clock tick, both threads interleaved at source-line granularity (change-point sweep over the source lines of the race window, PCT with 2-3 change points, random walk), judged by a burst-centric linearisation-tolerant oracle with passive sniffer transceivers."),
 	"C05": lambda: _um("C05", "Profile C05 (70 % of runs): command heavy plans over every verb, argument count and value range, foreign source ports, non-CMD datagrams, response delays. trxcon profile (15 %): the real, unmodified trxcon/trx_if.c (ASan/UBSan driver process) is the MS-side L1 over a fault-free link: random phyif command sequences (RESET, POWERON/OFF, MEASURE, SETFREQ_H0, SETFREQ_H1 with 1..64 ARFCNs, SETSLOT, SETTA), bursts both ways; every response of fake_trx must be accepted by trxcon's parser (no retransmission, no FSM termination except on a refused command, queue drained), MEASURE results must come back with the commanded ARFCN and the level fake_trx answered. Race profile (15 %): see C03."),
 	"C10": lambda: _um("C10", "Profile C10: metadata heavy plans (SETPOWER, SETTA, FAKE_TOA/RSSI/CI at the protocol boundaries), NB/SB/AB/FB/dummy/random/EDGE bursts."),
 	"C12": lambda: _um("C12", "Profile C12: power histories over parents and children, random port plans."),
